@@ -23,6 +23,7 @@ def mk_passes(specs):
 
 class Obs:
     diverged = False
+    scribble_leaks = None
 
 
 class Diverged(BaseException):
@@ -107,11 +108,28 @@ def run_scenario(sc, base, fast=True, mode='each', real_passes=None, on_test=Non
             for n in names:
                 if sc['scribble'] != 'all' and (n == cur or 'cvise-sanity-' in cwd):
                     continue      # leave the candidate itself alone
+                user = os.path.join(work, n)
+                try:
+                    with open(user, 'rb') as fh:
+                        user_before = fh.read()
+                except OSError:
+                    user_before = None
                 try:
                     with open(os.path.join(cwd, n), 'ab') as fh:
                         fh.write(b'#scribble')
                 except OSError:
                     pass
+                try:
+                    with open(user, 'rb') as fh:
+                        user_after = fh.read()
+                except OSError:
+                    user_after = None
+                if user_after != user_before:
+                    # a write inside the test's own directory changed the user's file (shared inode / same directory)
+                    o.scribble_leaks.append((n, cwd))
+                    if user_before is not None:
+                        with open(user, 'wb') as fh:       # undo, so that the run stays comparable
+                            fh.write(user_before)
         if out == 'norun':
             if 'cvise-sanity-' in cwd:
                 return 1      # the fault is scripted for worker processes only
@@ -130,6 +148,7 @@ def run_scenario(sc, base, fast=True, mode='each', real_passes=None, on_test=Non
     os.chmod(script, 0o755)
 
     o = Obs()
+    o.scribble_leaks = []
     o.work, o.tmpd, o.names = work, tmpd, names
     o.accepted = []
     o.passes = []
